@@ -813,4 +813,171 @@ def shared_class_state(ctx, rule, class_names, consequence):
                 ctx.finding(rule, f'{cname}.{mname}:stale-memo', ci, fn,
                             f'{cname}.{mname} is memoised for the life of the object ({", ".join(d for d in decos if d in MEMO_DECOS)}) but is computed from `{fld}`, which '
                             f'{sub}.{m2} re-binds: after that the accessor still answers for the old state, so {consequence}', where=f'{cname}.{mname}')
-    ctx.note(f'{rule}: {n} class-level containers, {m} module-level objects stored in instances and {k} memoised accessors examined in {len(class_names)} classes')
+    # ---- default argument values are evaluated once, when the `def` is executed: a mutable default that is kept by the object (stored in a
+    # field / one of its containers) or changed in place is one object for every call that omits the argument
+    d = 0
+    for cname in class_names:
+        ci = prog.classes.get(cname)
+        if ci is None:
+            continue
+        for mname, fn in list(ci.methods.items()) + list(ci.setters.items()):
+            a = fn.args
+            pos = a.posonlyargs + a.args
+            pairs = list(zip(pos[len(pos) - len(a.defaults):], a.defaults)) + [(p, dv) for p, dv in zip(a.kwonlyargs, a.kw_defaults) if dv is not None]
+            for p, dv in pairs:
+                mutable = isinstance(dv, (ast.Dict, ast.List, ast.Set, ast.DictComp, ast.ListComp, ast.SetComp)) or \
+                    (isinstance(dv, ast.Call) and (unparse(dv.func).split('.')[-1] in ('dict', 'list', 'set', 'defaultdict', 'OrderedDict', 'deque', 'Counter', 'Random')
+                                                   or (isinstance(dv.func, ast.Name) and dv.func.id in prog.classes)))
+                if not mutable:
+                    continue
+                d += 1
+                kept = None
+                for st in body_of(fn):
+                    for x in ast.walk(st):
+                        if isinstance(x, (ast.Assign, ast.AnnAssign)) and isinstance(getattr(x, 'value', None), ast.Name) and x.value.id == p.arg:
+                            for t in (x.targets if isinstance(x, ast.Assign) else [x.target]):
+                                if is_self_attr(t) or (isinstance(t, ast.Subscript) and is_self_attr(t.value)):
+                                    kept = kept or (x, f'stored in `{short(t, 40)}`')
+                        elif isinstance(x, ast.Call) and isinstance(x.func, ast.Attribute) and x.func.attr in MUTATORS:
+                            if isinstance(x.func.value, ast.Name) and x.func.value.id == p.arg:
+                                kept = kept or (x, f'changed in place by `{short(x, 40)}`')
+                            elif is_self_attr(x.func.value) and any(isinstance(g, ast.Name) and g.id == p.arg for g in x.args):
+                                kept = kept or (x, f'stored by `{short(x, 40)}`')
+                        elif isinstance(x, (ast.Subscript, ast.Attribute)) and isinstance(x.ctx, (ast.Store, ast.Del)) and isinstance(x.value, ast.Name) and x.value.id == p.arg:
+                            kept = kept or (x, f'changed in place by `{short(x, 40)}`')
+                    if isinstance(st, (ast.Assign, ast.AnnAssign)) and any(isinstance(t, ast.Name) and t.id == p.arg
+                                                                           for t in (st.targets if isinstance(st, ast.Assign) else [st.target])):
+                        break                       # re-bound on every path from here on
+                ok = kept is None
+                ctx.ob(rule, f'{cname}.{mname}({p.arg}=)', ok, sample=f'{cname}.{mname}: default `{p.arg}={short(dv, 30)}` is evaluated once; kept or changed by the object: {not ok}')
+                if not ok:
+                    ctx.finding(rule, f'{cname}.{mname}:{p.arg}:shared-default', ci, dv,
+                                f'the default value `{short(dv, 50)}` of parameter `{p.arg}` of {cname}.{mname} is created once, when the function is defined, and is '
+                                f'{kept[1]}: every call that omits the argument uses that one object, so {consequence}', where=f'{cname}.{mname}')
+    ctx.note(f'{rule}: {n} class-level containers, {m} module-level objects stored in instances, {k} memoised accessors and {d} mutable default arguments '
+             f'examined in {len(class_names)} classes')
+
+
+# ------------------------------------------------------------------------------------------------ container kinds of compared fields
+def container_kind(prog, ci, fn, e, depth=0, seen=None):
+    """'list' | 'tuple' | 'dict' | 'set' | ('field', name) | None (not known) -- the kind of container an expression evaluates to; names are
+    followed through single assignments, class constants and the returns of program functions.  list == tuple is False whatever the
+    elements are, so two values that meet in `==` must be of one kind."""
+    seen = seen or set()
+    if depth > 6:
+        return None
+    if isinstance(e, (ast.List, ast.ListComp)):
+        return 'list'
+    if isinstance(e, ast.Tuple):
+        return 'tuple'
+    if isinstance(e, (ast.Dict, ast.DictComp)):
+        return 'dict'
+    if isinstance(e, (ast.Set, ast.SetComp)):
+        return 'set'
+    if isinstance(e, ast.BinOp) and isinstance(e.op, (ast.Mult, ast.Add)):
+        l, r = container_kind(prog, ci, fn, e.left, depth + 1, seen), container_kind(prog, ci, fn, e.right, depth + 1, seen)
+        if isinstance(e.op, ast.Mult):
+            return l if l in ('list', 'tuple') else (r if r in ('list', 'tuple') else None)
+        return l if l == r else None
+    if isinstance(e, ast.IfExp):
+        l, r = container_kind(prog, ci, fn, e.body, depth + 1, seen), container_kind(prog, ci, fn, e.orelse, depth + 1, seen)
+        return l if l == r else None
+    if isinstance(e, ast.Subscript) and isinstance(e.slice, ast.Slice):
+        return container_kind(prog, ci, fn, e.value, depth + 1, seen)
+    if isinstance(e, ast.Call):
+        f = unparse(e.func)
+        if f in ('list', 'sorted'):
+            return 'list'
+        if f == 'tuple':
+            return 'tuple'
+        if f in ('dict',):
+            return 'dict'
+        if f in ('set', 'frozenset'):
+            return 'set'
+        if f in ('copy.copy', 'copy.deepcopy') and e.args:
+            return container_kind(prog, ci, fn, e.args[0], depth + 1, seen)
+        if isinstance(e.func, ast.Attribute) and e.func.attr == 'copy' and not e.args:
+            return container_kind(prog, ci, fn, e.func.value, depth + 1, seen)
+        # a function / method of the program: the kind all its returns agree on
+        target = None
+        if isinstance(e.func, ast.Attribute):
+            owner = unparse(e.func.value)
+            cands = []
+            if owner in prog.classes:
+                cands = [owner]
+            elif ci is not None:
+                cands = [c for c in prog.classes if e.func.attr in prog.classes[c].methods and prog.classes[c].module is ci.module]
+            fns = [prog.classes[c].methods[e.func.attr] for c in cands if e.func.attr in prog.classes[c].methods]
+            fns = [f_ for f_ in fns if not (len(body_of(f_)) == 1 and isinstance(body_of(f_)[0], (ast.Pass, ast.Raise)))]
+            kinds = set()
+            for f_ in fns:
+                if id(f_) in seen:
+                    continue
+                owner_ci = next((prog.classes[c] for c in cands if prog.classes[c].methods.get(e.func.attr) is f_), ci)
+                for r_ in walk_shallow(f_):
+                    if isinstance(r_, ast.Return) and r_.value is not None:
+                        kinds.add(container_kind(prog, owner_ci, f_, r_.value, depth + 1, seen | {id(f_)}))
+            kinds = {k for k in kinds if not (isinstance(k, tuple) and k[0] == 'field')} or kinds
+            return next(iter(kinds)) if len(kinds) == 1 else None
+        return None
+    if isinstance(e, ast.Name) and fn is not None:
+        vals = [a for a in walk_shallow(fn) if isinstance(a, (ast.Assign, ast.AnnAssign)) and getattr(a, 'value', None) is not None
+                and any(isinstance(t, ast.Name) and t.id == e.id for t in (a.targets if isinstance(a, ast.Assign) else [a.target]))]
+        kinds = {container_kind(prog, ci, fn, a.value, depth + 1, seen) for a in vals}
+        return next(iter(kinds)) if len(kinds) == 1 else None
+    if isinstance(e, ast.Attribute):
+        owner = unparse(e.value)
+        oc = prog.classes.get(owner) or (ci if owner in ('self', 'cls', 'type(self)') else None)
+        if oc is not None:
+            for (name, value, _st) in oc.all_assigns:
+                if name == e.attr:
+                    return container_kind(prog, oc, None, value, depth + 1, seen)
+        return ('field', e.attr)
+    return None
+
+
+def compared_container_fields(ctx, rule, module_name, floor=1):
+    """Fields F compared as whole containers (`a.F == b.F`, `a.F != b.F`): every value stored into F anywhere must be of one container kind."""
+    prog = ctx.prog
+    ctx.rule(rule, 'a field compared with == / != as a whole container is bound to one kind of container (list / tuple / dict / set) everywhere')
+    mod = prog.modules[module_name]
+    fields = set()
+    for n in ast.walk(mod.tree):
+        if isinstance(n, ast.Compare) and len(n.ops) == 1 and isinstance(n.ops[0], (ast.Eq, ast.NotEq)):
+            l, r = n.left, n.comparators[0]
+            if isinstance(l, ast.Attribute) and isinstance(r, ast.Attribute) and l.attr == r.attr and unparse(l.value) != unparse(r.value):
+                fields.add(l.attr)
+    ctx.floor(rule, 'fields compared as containers', len(fields), floor)
+    for F in sorted(fields):
+        stores = []
+        for cname, ci in prog.classes.items():
+            if ci.module is not mod:
+                continue
+            for (name, value, st) in ci.all_assigns:
+                if name == F and value is not None:
+                    stores.append((ci, None, st, value, cname))
+            for mname, fn in list(ci.methods.items()) + list(ci.setters.items()):
+                for a in walk_shallow(fn):
+                    if isinstance(a, (ast.Assign, ast.AnnAssign)) and getattr(a, 'value', None) is not None:
+                        for t in (a.targets if isinstance(a, ast.Assign) else [a.target]):
+                            if isinstance(t, ast.Attribute) and t.attr == F:
+                                stores.append((ci, fn, a, a.value, f'{cname}.{mname}'))
+        kinds = {}
+        for (ci, fn, st, v, where) in stores:
+            k = container_kind(prog, ci, fn, v)
+            if isinstance(k, tuple) and k[0] == 'field':
+                k = 'same' if k[1] == F else None
+            kinds.setdefault(k, []).append((ci, st, v, where))
+        known = {k: v for k, v in kinds.items() if k in ('list', 'tuple', 'dict', 'set')}
+        ok = len(known) <= 1
+        ctx.ob(rule, f'{F}', ok, sample=f'`{F}` is stored at {len(stores)} site(s); container kinds: ' + ', '.join(f'{k}: {len(v)}' for k, v in sorted(kinds.items(), key=lambda kv: str(kv[0]))))
+        if not ok:
+            major = max(known, key=lambda k: len(known[k]))
+            for k, sites in known.items():
+                if k == major:
+                    continue
+                for (ci, st, v, where) in sites:
+                    ctx.finding(rule, f'{where}:{F}:{k}', ci, st,
+                                f'`{F}` is bound to a {k} (`{short(v, 50)}`) here and to a {major} at {len(known[major])} other site(s) (e.g. `{short(known[major][0][2], 40)}` in '
+                                f'{known[major][0][3]}); the field is compared with == / != as a whole, and a {k} never equals a {major}: values with the same contents '
+                                f'compare unequal', where=where)
